@@ -42,20 +42,21 @@ type ackRec struct {
 }
 
 type subSrv struct {
-	srv       *scriptsrv.Server
-	mu        sync.Mutex
-	sessions  map[string]bool
-	nextTok   uint32
-	subs      map[uint32]*ssub
-	nextSub   uint32
-	nextItem  uint32
-	held      []*heldPublish
-	arrived   int
-	acks      []ackRec
-	republish []uint32
-	transfers int
-	seen      map[*uasc.SecureChannel]bool // channels that sent a request
-	deadSC    map[*uasc.SecureChannel]bool // ... and were cut by the harness
+	srv          *scriptsrv.Server
+	mu           sync.Mutex
+	sessions     map[string]bool
+	nextTok      uint32
+	subs         map[uint32]*ssub
+	nextSub      uint32
+	nextItem     uint32
+	held         []*heldPublish
+	arrived      int
+	acks         []ackRec
+	republish    []uint32
+	transfers    int
+	seen         map[*uasc.SecureChannel]bool // channels that sent a request
+	deadSC       map[*uasc.SecureChannel]bool // ... and were cut by the harness
+	beforeDelete uint32                       // DeleteSubscriptions of this id: first answer a held PublishRequest with its keep-alive
 }
 
 func startSubSrv() (*subSrv, error) {
@@ -128,6 +129,24 @@ func (s *subSrv) handle(sc *uasc.SecureChannel, reqID uint32, req ua.Request) ua
 	case *ua.DeleteSubscriptionsRequest:
 		res := make([]ua.StatusCode, len(q.SubscriptionIDs))
 		for i, id := range q.SubscriptionIDs {
+			if sub := s.subs[id]; sub != nil && sub.sess == t && id == s.beforeDelete {
+				// a keep-alive of the subscription was still queued: it goes out on the waiting PublishRequest
+				// before the subscription is deleted (the client has already forgotten the subscription)
+				s.beforeDelete = 0
+				for k, hp := range s.held {
+					if hp.sess == t {
+						s.held = append(s.held[:k], s.held[k+1:]...)
+						resp := &ua.PublishResponse{ResponseHeader: scriptsrv.Header(hp.req, ua.StatusOK), SubscriptionID: sub.id,
+							AvailableSequenceNumbers: sub.avail(), NotificationMessage: &ua.NotificationMessage{SequenceNumber: sub.seq + 1,
+								PublishTime: time.Now(), NotificationData: []*ua.ExtensionObject{}},
+							Results: hp.results, DiagnosticInfos: []*ua.DiagnosticInfo{}}
+						ctx, cancel := context.WithTimeout(context.Background(), 10*time.Second)
+						hp.sc.SendResponseWithContext(ctx, hp.reqID, resp)
+						cancel()
+						break
+					}
+				}
+			}
 			if sub := s.subs[id]; sub != nil && sub.sess == t {
 				delete(s.subs, id)
 				res[i] = ua.StatusOK
@@ -298,4 +317,21 @@ func (s *subSrv) waitArrivals(n int, d time.Duration) bool {
 		time.Sleep(2 * time.Millisecond)
 	}
 	return true
+}
+
+func (s *subSrv) setBeforeDelete(id uint32) { s.mu.Lock(); s.beforeDelete = id; s.mu.Unlock() }
+
+// emitPublishError answers a held request with a PublishResponse whose service result is bad and whose
+// subscription id is 0 (a status the publish loop does not special-case).
+func (s *subSrv) emitPublishError(subID uint32) error {
+	hp, _ := s.takeHeld(subID, 15*time.Second)
+	if hp == nil {
+		return fmt.Errorf("no PublishRequest is waiting at the server")
+	}
+	resp := &ua.PublishResponse{ResponseHeader: scriptsrv.Header(hp.req, ua.StatusBadInternalError), SubscriptionID: 0,
+		AvailableSequenceNumbers: []uint32{}, NotificationMessage: &ua.NotificationMessage{PublishTime: time.Now(), NotificationData: []*ua.ExtensionObject{}},
+		Results: hp.results, DiagnosticInfos: []*ua.DiagnosticInfo{}}
+	ctx, cancel := context.WithTimeout(context.Background(), 10*time.Second)
+	defer cancel()
+	return hp.sc.SendResponseWithContext(ctx, hp.reqID, resp)
 }
